@@ -45,7 +45,11 @@ func (e *Engine) header() string {
 		sb.WriteString(fmt.Sprintf("(assert (= (strlen %d) %d))\n", id, len(s)))
 		if len(s) <= 16 {
 			for i := 0; i < len(s); i++ {
-				sb.WriteString(fmt.Sprintf("(assert (= (strat %d %d) %d))\n", id, i, s[i]))
+				if e.mode == ModeBV {
+					sb.WriteString(fmt.Sprintf("(assert (= (strat %d %d) #x%02x))\n", id, i, s[i]))
+				} else {
+					sb.WriteString(fmt.Sprintf("(assert (= (strat %d %d) %d))\n", id, i, s[i]))
+				}
 			}
 		}
 	}
@@ -105,7 +109,9 @@ func runSolver(ctx context.Context, s Solver, file string, opts SolveOpts) (stri
 	switch first {
 	case "sat", "unsat", "unknown":
 	default:
-		if strings.Contains(text, "error") || strings.Contains(text, "Error") {
+		if strings.Contains(text, "interrupted by timeout") || strings.Contains(text, "interrupted by SIG") || ctx.Err() != nil {
+			first = "timeout"
+		} else if strings.Contains(text, "error") || strings.Contains(text, "Error") {
 			first = "error"
 		} else if first == "timeout" || first == "" {
 			first = "timeout"
@@ -124,6 +130,9 @@ func (o *Obl) Solve(header string, opts SolveOpts) {
 	}
 	file := filepath.Join(opts.Dir, name+".smt2")
 	os.WriteFile(file, []byte(o.Query(header, false)), 0644)
+	if o.Expect == "sat" && opts.TimeoutS > 4 {
+		opts.TimeoutS = 4
+	}
 	ctx, cancel := context.WithCancel(context.Background())
 	defer cancel()
 	type ans struct {
